@@ -256,6 +256,12 @@ class Run:
         self.dial_ptr = 0
         self.results = []           # results of driver-spawned application calls
         self.stalled = set()
+        self.calls = []             # [handle, app index, message] of blocked send_request callers
+        self.answered = []          # (app index, hbh, e2e) answers handed back to blocked callers
+        self.timeouts = []
+        self.stop_handle = None
+        self.pick = [0]
+        node.peer_route_select_func = lambda nd, ap, msg, peers: peers[self.pick[0] % len(peers)]
 
     def start(self, dials=()):
         self.node.start()
@@ -336,6 +342,41 @@ class Run:
             self.results.append(hnd.result if hnd.done else "blocked")
         elif k == "start":
             self.start(ev.get("dials", ()))
+        elif k == "app_request":
+            app = self.apps[ev["app"]]
+            msg = ev["msg"]
+            self.pick[0] = ev.get("pick", 0)
+
+            def call(app=app, msg=msg, timeout=ev["timeout"], idx=ev["app"]):
+                try:
+                    a = app.send_request(msg, timeout=timeout)
+                    self.answered.append((idx, a.header.hop_by_hop_identifier, a.header.end_to_end_identifier))
+                    return "ok"
+                except Exception as e:   # noqa
+                    if type(e).__name__ == "TimeoutError":
+                        self.timeouts.append((idx, msg.header.hop_by_hop_identifier))
+                    return type(e).__name__
+            hnd = sim.spawn(call, name="request")
+            sim.run()
+            if hnd.done:
+                self.results.append(hnd.result)
+            else:
+                self.calls.append(hnd)
+        elif k == "stop":
+            node_ = self.node
+
+            def call(force=ev["force"], timeout=ev["timeout"]):
+                node_.stop(wait_timeout=timeout, force=force)
+                return "stopped"
+            self.stop_handle = sim.spawn(call, name="stop")
+            sim.run()
+        elif k == "stop_finish":
+            # let virtual time pass until stop() returns
+            sim.run_until(lambda: self.stop_handle.done, timeout=ev.get("max", 400))
+            ev["tclose"] = max([p.last_disconnect - T0 for p in node.peers.values() if p.last_disconnect] + [0]) if ev.get("tclose") is None else ev["tclose"]
+            ev["tend"] = int(sim.rel_now)
+            ev["returned"] = self.stop_handle.done
+            sim.advance(7)       # connection workers poll their queues every 5 s before they notice the stop flag
         else:
             raise ValueError(k)
         self._collect_new_remotes()
@@ -349,7 +390,13 @@ class Run:
                 msgs = []
             if msgs:
                 sends[cid] = [out_abstract(m) for m in msgs]
+        n_ans = getattr(self, "_n_ans", 0)
+        self._n_ans = len(self.answered)
         obs = dict(
+            answered=self.answered[n_ans:], now=int(sim.rel_now), exact_now=sim.rel_now,
+            live_threads=sim.live_threads_by_role(),
+            open_sockets=[cid for cid, r in enumerate(self.remotes) if not r.closed_by_node],
+            listeners_open=[not getattr(l, "closed", False) for l in sim.listeners],
             sends=sends,
             delivered=[(i, m.header.hop_by_hop_identifier, m.header.end_to_end_identifier) for i, m in self.delivered[n_deliv:]],
             unexpected=[(i, m.header.hop_by_hop_identifier) for i, m in self.unexpected[n_unexp:]],
@@ -388,6 +435,7 @@ class Run:
             origin_waiting=sorted(tuple(int(x) for x in k.split(":")) for k in node._origin_waiting_answer),
             sent_answers=sorted((o.decode() if isinstance(o, bytes) else ("<none>" if o is None else str(o)), list(d)) for o, d in node._sent_answers.items()),
             ready=[a.is_ready.is_set() for a in self.apps],
+            answer_waiting=[sorted(a._answer_waiting) for a in self.apps],
             stopping=node._stopping)
 
     def shutdown(self):
@@ -456,6 +504,18 @@ def coq_event(ev):
         return f"(ETick {ev['dt']})"
     if k == "start":
         return "EStart"
+    if k == "app_request":
+        from diameter.message import Message
+        m = ev["msg"]
+        d = out_abstract(Message.from_bytes(m.as_bytes()))
+        d["hbh"], d["e2e"] = ev.get("hbh_in", 0), ev.get("e2e_in", 0)
+        d["app"] = ev.get("app_in", 0)
+        realm = "Undeclared" if not hasattr(m, "destination_realm") else ("Absent" if m.destination_realm is None else f"(Present {vlib.coq_string(m.destination_realm.decode())})")
+        return f"(EAppRequest {ev['app']}%nat {coq_omsg(d)} {realm} {ev.get('pick', 0)}%nat {ev['timeout']})"
+    if k == "stop":
+        return f"(EStop {b(ev['force'])})"
+    if k == "stop_finish":
+        return f"(EStopFinish {ev['tclose']} {ev['tend']})"
     if k == "app_answer":
         from diameter.message import Message
         return f"(EAppAnswer {ev['app']}%nat {coq_omsg(out_abstract(Message.from_bytes(ev['msg'].as_bytes())))})"
@@ -477,11 +537,12 @@ def coq_obs(o):
     sa = "[" + "; ".join(f"({vlib.coq_string(o_)}, {vlib.zlist(l)})" for o_, l in s["sent_answers"]) + "]"
     ready = "[" + "; ".join(b(x) for x in s["ready"]) + "]"
     nr = sum(1 for x in o["results"] if x == "NotRoutable")
+    aw_ = "[" + "; ".join(vlib.zlist(l) for l in s["answer_waiting"]) + "]"
     return (f"{{| x_sends := {sends}; x_deliv := {deliv}; x_unexp := {len(o['unexpected'])}%nat; x_closed := {closed}; "
-            f"x_dials := {o['dials']}%nat; x_notroutable := {nr}%nat; "
+            f"x_dials := {o['dials']}%nat; x_notroutable := {nr}%nat; x_answered := {len(o['answered'])}%nat; "
             f"x_peers := {peers}; x_conns := {conns}; x_half := {vlib.zlist(s['half'])}; x_sockpeers := {vlib.zlist(s['sockpeers'])}; "
             f"x_peer_waiting := {pw}; x_app_waiting := {aw}; x_origin_waiting := {ow}; x_sent_answers := {sa}; "
-            f"x_ready := {ready}; x_stopping := {b(s['stopping'])} |}}")
+            f"x_ready := {ready}; x_stopping := {b(s['stopping'])}; x_answer_waiting := {aw_} |}}")
 
 
 def run_scenario(cfg, events, seed=0, policy="fifo"):
